@@ -170,11 +170,98 @@ pub fn with_supplemental(ix: &solana_program::instruction::Instruction, accounts
     out
 }
 
+/// Transfer-hook accounts travel in typed slices of the remaining accounts (one slice per transfer).  On a pool whose two mints use
+/// DIFFERENT hook programs: a wrong program in a slice, a missing slice, the right program in the wrong slice must all be refused.
+fn hook_slices(r: &Rich, l: &mut Local) -> Result<(), String> {
+    let w = &r.w;
+    let (h1, h2) = (crate::rt::hook_program(1), crate::rt::hook_program(2));
+    let pl = &w.pools[r.p_hook];
+    let prog_of = |a: bool| if a { pl.mint_a.hook.unwrap() } else { pl.mint_b.hook.unwrap() };
+    let treasury_a = w.user_token_existing(r.trader, &pl.mint_a.key);
+    let treasury_b = w.user_token_existing(r.trader, &pl.mint_b.key);
+    let reward_dest = w.user_token_existing(r.owner, &pl.rewards[0].mint.key);
+    let sp = SwapParams { amount: 1000, threshold: 0, sqrt_price_limit: 0, exact_in: true, a_to_b: true };
+    let (lo, hi) = (w.positions[r.pos_hook].lower, w.positions[r.pos_hook].upper);
+    let ts = pl.tick_spacing as i32;
+    // (name, decorated baseline, [(accounts type, expected program)])
+    let ab = vec![(0u8, prog_of(true)), (1u8, prog_of(false))];
+    let list: Vec<(&str, solana_program::instruction::Instruction, Vec<(u8, Pubkey)>)> = vec![
+        ("swap_v2", w.ix_swap_v2(r.p_hook, r.trader, &sp), ab.clone()),
+        ("increase_liquidity_v2", w.ix_increase(r.pos_hook, 1000, u64::MAX, u64::MAX, true), ab.clone()),
+        ("decrease_liquidity_v2", w.ix_decrease(r.pos_hook, 1000, 0, 0, true), ab.clone()),
+        ("increase_liquidity_by_token_amounts_v2", w.ix_increase_by_amounts(r.pos_hook, 100_000, 100_000, crate::model::MIN_SQRT_PRICE, crate::model::MAX_SQRT_PRICE), ab.clone()),
+        ("collect_fees_v2", w.ix_collect_fees(r.pos_hook, true), ab.clone()),
+        ("collect_protocol_fees_v2", w.ix_collect_protocol_fees(r.p_hook, treasury_a, treasury_b, true), ab.clone()),
+        ("collect_reward_v2", w.ix_collect_reward(r.pos_hook, 0, reward_dest, true), vec![(2u8, pl.rewards[0].mint.hook.unwrap())]),
+        (
+            "reposition_liquidity_v2",
+            w.ix_reposition(r.pos_hook, lo - ts, hi + ts, 5000, 0, 0, u64::MAX, u64::MAX),
+            vec![(9u8, prog_of(true)), (10u8, prog_of(false)), (11u8, prog_of(true)), (12u8, prog_of(false))],
+        ),
+    ];
+    for (name, base_ix, slices) in list {
+        let mut wc = w.clone();
+        let o = wc.exec(&base_ix);
+        // the variants below must be refused whatever the baseline does, so they are issued even when it fails
+        let base_ok = o.ok();
+        if !base_ok {
+            l.count(&format!("VACUOUS_baseline_failed/hook/{name}/{}", o.code().unwrap_or(0)));
+        } else {
+            l.count("hook/baseline_ok");
+        }
+        // reposition moves each token in ONE direction only (the net of withdrawal and deposit): only that direction's slice is used
+        let used: Vec<bool> = if name == "reposition_liquidity_v2" && base_ok {
+            let (oa, ob) = (w.user_token_existing(r.owner, &pl.mint_a.key), w.user_token_existing(r.owner, &pl.mint_b.key));
+            let (da, db) = (wc.balance(&oa) as i128 - w.balance(&oa) as i128, wc.balance(&ob) as i128 - w.balance(&ob) as i128);
+            vec![da < 0, db < 0, da > 0, db > 0]
+        } else {
+            vec![true; slices.len()]
+        };
+        let bare = World::strip_remaining(base_ix.clone(), slices.len(), slices.len());
+        let mut variants: Vec<(String, Vec<(u8, Vec<Pubkey>)>)> = vec![];
+        let full: Vec<(u8, Vec<Pubkey>)> = slices.iter().map(|(t, p)| (*t, vec![*p])).collect();
+        for (i, (t, p)) in slices.iter().enumerate() {
+            if !used[i] {
+                continue;
+            }
+            for (what, sub) in [("the other mint's hook program", if *p == h1 { h2 } else { h1 }), ("the memo program", MEMO), ("the token program", TOKEN22)] {
+                let mut v = full.clone();
+                v[i].1 = vec![sub];
+                variants.push((format!("slice type {t} holds {what}"), v));
+            }
+            let mut v = full.clone();
+            v.remove(i);
+            variants.push((format!("slice type {t} is missing"), v));
+            // the right program, but only in ANOTHER transfer's slice
+            for (j, (t2, p2)) in slices.iter().enumerate() {
+                if j != i && p2 != p {
+                    let mut v = full.clone();
+                    v[j].1 = vec![*p2, *p];
+                    v[i].1 = vec![MEMO];
+                    variants.push((format!("the hook program of slice type {t} is supplied only inside slice type {t2}"), v));
+                }
+            }
+        }
+        for (what, v) in variants {
+            let ix = World::with_remaining(bare.clone(), &v);
+            let mut wc = w.clone();
+            let o = wc.exec(&ix);
+            l.count("substituted/HookSlice");
+            l.nontrivial(hash_of(&(name, &what, hash_of(&r.spec))));
+            if o.ok() {
+                return Err(format!("{name} on a pool with transfer-hook mints: accepted although {what}"));
+            }
+        }
+    }
+    Ok(())
+}
+
 pub fn check_world(spec: &RichSpec, l: &mut Local) -> Result<(), String> {
     let Some(r) = Rich::try_build(spec) else {
         l.count("world_build_refused");
         return Ok(());
     };
+    hook_slices(&r, l)?;
     let cat = catalog(&r);
     let spec_h = hash_of(spec);
     let mut names = vec![];
@@ -268,7 +355,7 @@ pub fn def() -> CheckDef {
                pool); for every fund-moving instruction (swap v1/v2, adaptive swap, two-hop v1/v2, increase/decrease v1/v2, by-token-amounts, reposition, collect fees / \
                reward / protocol fees v1/v2, set-reward-emissions) a slot table tags each account; baseline must succeed, then every slot is substituted with \
                well-formed accounts of the same type belonging to another pool / mint / position / reward index / program (for vault slots also token accounts of the right mint whose authority IS the pool but which are not its vault: stray accounts, and the reward vault of a pool that pays a reward in its own token): every substituted call must fail; for the v2 swaps every initialized tick array of another pool is additionally offered as a *supplemental* tick array \
-               (any position in the key order relative to the pool's own arrays) and must be refused.  \
+               (any position in the key order relative to the pool's own arrays) and must be refused; on a pool whose two mints carry DIFFERENT transfer-hook programs (executed natively) every v2 fund-moving instruction is re-issued with a wrong program in a hook slice, a missing slice, and the right program supplied only in another transfer's slice: all must be refused.  \
                The table is enumerated completely on every world; distinct non-trivial = (instruction, slot, substitute kind, world).",
         assumptions: vec!["nsvm runtime as in DESIGN.md §5", "slots where substitution is legitimate (funder, receiver, any destination of the right mint) are not in the table"],
         subs: vec![sub("table", 1600, 20_000, rich_spec_strategy, |c: &RichSpec, l: &mut Local| check_world(c, l))],
